@@ -1583,10 +1583,17 @@ impl<'p, 'w, W: Write> DesignatorWriter<'p, 'w, W> {
 
     fn finish_preceding(&mut self) -> Result<(), Error> {
         if self.written_non_zero_unit {
+            let between_units = self.printer.spacing.between_units();
             if self.printer.comma_after_designator {
                 self.wtr.write_str(",")?;
+                // The friendly format requires whitespace after a comma. So
+                // even when spacing between units is disabled, a space must
+                // follow the comma for the result to be parseable.
+                if between_units.is_empty() {
+                    self.wtr.write_str(" ")?;
+                }
             }
-            self.wtr.write_str(self.printer.spacing.between_units())?;
+            self.wtr.write_str(between_units)?;
         }
         Ok(())
     }
